@@ -186,7 +186,9 @@ def allowed_values(framing, stream, chunks=None):
         if pdu[0] == 5:
             allowed[t].setdefault(a['address'], set()).update([0, 1])
         elif pdu[0] == 6:
-            allowed[t].setdefault(a['address'], set()).add(a['value'])
+            cur = allowed[t].setdefault(a['address'], set())
+            if cur != 'any':
+                cur.add(a['value'])
         elif pdu[0] == 22:
             allowed[t][a['address']] = 'any'
         elif pdu[0] == 15:
